@@ -131,6 +131,24 @@ pub fn run(run: &Run) {
             cp += n as u32;
         }
     });
+    run.par("all_pairs_of_width_mapped", true, |tid, n, l| {
+        let w = &pools().width;
+        for (i, a) in w.iter().enumerate() {
+            if i % n != tid {
+                continue;
+            }
+            for b in w.iter() {
+                for s in [format!("{a}{b}"), format!("\u{e9}{a}x{b}")] {
+                    l.cases += 1;
+                    let p = profs[i % 2];
+                    if check(p, &s, l).is_err() {
+                        report(run, p, &s);
+                        return;
+                    }
+                }
+            }
+        }
+    });
     super::pipe::collisions(run, "fingerprint_collisions", &|s, l| profs.iter().all(|p| match check(*p, s, l) {
         Ok(()) => true,
         Err(v) => {
